@@ -20,7 +20,8 @@ Alpha    == JsonDeserialize(IOEnv.PM_ALPHABET)
 Alphabet == Alpha.reqs
 ToNat(str) == CHOOSE n \in 0..200 : ToString(n) = str
 K == [fee |-> ToNat(IOEnv.PM_FEE), pct |-> ToNat(IOEnv.PM_PCT),
-      revokeValidates |-> IOEnv.PM_REVOKE_VALIDATES = "true"]
+      revokeValidates |-> IOEnv.PM_REVOKE_VALIDATES = "true",
+      vlim |-> Alpha.vlim]        \* the policy the configuration names (the harness built the node with it)
 Mon == IOEnv.PM_MON
 
 RespOf(e) == [ok |-> e[3] = 1, flag |-> e[4]]
